@@ -637,11 +637,75 @@ def run_lazy(n):
     return viol
 
 
+TRICKY = ['/ab', '/ab/bc', '/ab/a', '/ab/ab', '/ab/bc/c', '/srv/a/s',
+          '/srv/a/v1', '/a/a']
+
+
+def run_names(mask):
+    """paths whose child names begin with characters that occur in the
+    parent path (/a/a, /ab/bc, /srv/a/v1): for one subset of them exported,
+    every path and every ancestor is introspected and the child names
+    compared with the set-theoretic reference"""
+    from txdbus import objects as O
+    viol = []
+    cw = fakes.ClientWorld()
+    try:
+        cw.sent()
+        exported = [p for i, p in enumerate(TRICKY) if mask >> i & 1]
+        for p_ in exported:
+            cw.conn.exportObject(O.DBusObject(p_))
+        cw.sent()
+        queries = set(TRICKY) | {'/', '/srv', '/srv/a', '/a'}
+        serial = 8000
+        for q in sorted(queries):
+            serial += 1
+            cw.conn.dataReceived(R.encode_message(
+                R.METHOD_CALL, serial,
+                {'path': q, 'member': 'Introspect', 'sender': CALLER,
+                 'destination': ':1.7',
+                 'interface': 'org.freedesktop.DBus.Introspectable'}))
+            mine = [m for m in cw.sent()
+                    if m['fields'].get('reply_serial') == serial]
+            kids = children_of(q, exported)
+            if q not in exported and not kids:
+                ok = len(mine) == 1 and mine[0]['type'] == 3
+                got = [_b(m) for m in mine]
+            else:
+                got = None
+                if len(mine) == 1 and mine[0]['type'] == 2:
+                    xml = mine[0]['body'][0]
+                    got = sorted(n.get('name') for n in ET.fromstring(
+                        xml[xml.index('<node'):]).findall('node'))
+                ok = got == sorted(kids)
+            if not ok:
+                viol.append(('names/children',
+                             'exported %r: Introspect(%s) lists %r, the '
+                             'immediate children are %r'
+                             % (exported, q, got, sorted(kids))))
+                break
+    except Exception as e:
+        viol.append(('names/raises-%s' % type(e).__name__, '%r' % (e,)))
+    finally:
+        cw.close()
+    return viol
+
+
 CHURN = [(60, 0, True), (200, 0, False), (300, 7, False), (400, 40, False)]
 
 
 def _task_churn(args):
     res = core.Result()
+    if args[0] == 'names':
+        for mask in range(args[1], 1 << len(TRICKY), args[2]):
+            res.count('states')
+            res.count('transitions', 12)
+            res.count('evaluations', 12)
+            res.count('nontrivial')
+            for t, w in run_names(mask):
+                res.violation('%s/%s' % (PROP, t), w,
+                              {'part': 'names', 'mask': mask}, size=bin(
+                                  mask).count('1'))
+        return res
     if args[0] == 'lazy':
         res.count('states')
         res.count('transitions', args[1] + 3)
@@ -679,6 +743,8 @@ def run(ctx):
         'adds the event "export another object at an occupied path", a '
         'third exports the same instance again after it was unexported; '
         'one pass uses container-like objects whose truth value is False; '
+        'every subset of 8 paths whose child names begin with characters of '
+        'the parent path, every path and ancestor introspected; '
         '1 / 2 / 5 devices whose computed property exports a further object '
         'when GetManagedObjects first reads it. '
         'Long-lived connection: 60..400 cycles of export / query / unexport '
@@ -719,11 +785,14 @@ def run(ctx):
                     {'dedup': False, 'reexport': tuple(range(7))},
                     max_depth=3 if ctx.quick else 5,
                     label='all histories, no deduplication')
-    ctx.map(_task_churn, CHURN + [('lazy', 1), ('lazy', 2), ('lazy', 5)])
+    ctx.map(_task_churn, CHURN + [('lazy', 1), ('lazy', 2), ('lazy', 5)]
+            + [('names', i, 16) for i in range(16)])
     ctx.bounds = {'paths': len(UNIVERSE)}
 
 
 def replay(data):
+    if data.get('part') == 'names':
+        return [('%s/%s' % (PROP, t), w) for t, w in run_names(data['mask'])]
     if data.get('part') == 'lazy':
         return [('%s/%s' % (PROP, t), w) for t, w in run_lazy(data['n'])]
     if data.get('part') == 'churn':
